@@ -18,6 +18,13 @@ CLAIMED = {
              "(generated times are dyadic so it is). Termination of user callbacks that re-insert forever is not claimed (fuel).",
         technique="Lean 4 proof (induction over the event loop) + trace-equality correspondence with the real class",
         design='6/C20'),
+    'C19': dict(
+        text=("PARTIAL by nature. Proved in Lean: two interpreters of a small array-program language over exact rationals, mirroring the ndarray-subclass route and the wrapper route of hcipy's two Field implementations (structurally different stores), give the same values after every statement and the same read-outs of all variables and aliases for EVERY program (with the stated side condition on `.shaped`, shown necessary by a counterexample); "
+              "elementwise results carry the grid of the leftmost Field operand; in-place updates write through to aliases and leave everything else unchanged; copy and pickle return exactly the operand. NOT proved: that NumPy's dispatch behaves like the interpreters, and anything about the Fourier switches/FFT backends — those are differential only: four value streams per random program (plain ndarray, old-style, new-style, model) and 20 library pipelines under all 64 configuration combinations."),
+        note=TRUST + " NumPy's __array_ufunc__/__array_function__/__array_finalize__ dispatch is runtime behaviour the model only mirrors; 123 extended operations are compared against the plain-ndarray reference only; Fourier configuration switches have no Lean model (their index bookkeeping is covered by C01).",
+        technique="Lean 4 proof (simulation between two interpreters, structural induction over programs) + four-way differential run; Fourier/backends differential only (partial)",
+        design='6/C19 and 8'),
+
     'C10': dict(
         text=("Lean theorems about the model of Grid/Coords identity (regular, separated incl. ragged, unstructured; Cartesian/polar): equality is reflexive, symmetric, transitive and characterised by equal system+kind+coordinates; equal grids feed identical bytes to the hash; copy, dict round trip and independent reconstruction are equal; grids differing in system, kind, dimension, size or any coordinate are unequal; "
               "shift/scale/reverse change identity, and any store operation changes at most one existing object (copies untouched). Old ragged-equality and int-vs-float hash behaviours refuted. Tie: equality and hash-equality matrices over all live grids after every op of random histories; hash(g) must equal xxh64 of the model's hash input exactly."),
